@@ -1213,15 +1213,14 @@ def min_velocity(eos, Tn, Tm_floor=0.0):
     """(vmin, dTn'/dvw, Tp): smallest wall speed for which a deflagration reaches Tn ahead of the front.
     The strongest shock has v+ = 0: no energy flux through the wall, so p_s(T+) = p_b(Tm_floor)
     (Tm_floor = 0: the exact limit, p_b = 0 for the zoo's template-form EOS; WallGo.Hydrodynamics uses
-    Tm_floor = TMinHydro).  Returns vmin = 0.0 if even the slowest wall has Tn' < Tn ... i.e. no minimum."""
+    Tm_floor = TMinHydro).  Returns vmin = 0.0 (slope None) if Tn' < Tn for every wall speed: no minimum."""
     eos = as_eos(eos)
     target = eos.pb(Tm_floor) if Tm_floor > 0.0 else 0.0
-    if eos.ps(Tn) <= target:
-        return 0.0, None, None  # T+ >= Tn cannot satisfy p_s(T+) = target: every speed is allowed
     floor = max(1e-9 * Tn, eos.Tfloor)
     if eos.ps(floor) >= target:
         raise RefFailure("vmin:Tp-below-floor")
-    Tp = brentq(lambda T: eos.ps(T) - target, floor, Tn, xtol=1e-300, rtol=4 * np.finfo(float).eps, maxiter=300)
+    # p_s increases with T; T+ may lie on either side of Tn (the shock heats the plasma in front of the wall)
+    Tp = _root_increasing(eos.ps, Tn, target, floor, 1e4 * Tn, "vmin-Tp")
 
     def f(vw):
         sh = integrate_shock(eos, vw, 0.0, Tp, want_kappa=False)
@@ -1229,8 +1228,10 @@ def min_velocity(eos, Tn, Tm_floor=0.0):
             raise RefFailure(f"vmin-shock:{sh.reason}")
         return sh.Tn_out - Tn
 
-    lo, hi = 1e-6, math.sqrt(eos.cs2(Tp)) * (1.0 - 1e-9)
+    lo, hi = 1e-6, 1.0 - 1e-6   # with v+ = 0 the front is ahead of the wall for every wall speed (v+ vw < c_s^2)
     flo, fhi = f(lo), f(hi)
+    if flo < 0 and fhi < 0:
+        return 0.0, None, Tp   # even the strongest shock of the slowest wall leaves Tn' < Tn: no minimal velocity
     if flo * fhi > 0:
         raise RefFailure("vmin:no-bracket")
     vmin = brentq(f, lo, hi, xtol=1e-300, rtol=1e-13, maxiter=200)
